@@ -481,6 +481,20 @@ func evalPlanner(c PCase) (problems []string, n int) {
 		}
 		changes, err = []schema.Change{&schema.ModifyTable{T: t, Changes: sub}}, nil
 	}
+	if c.Kind == "pg_constraint_using" {
+		// PostgreSQL: a constraint made from an existing unique index (ALTER TABLE ... ADD [CONSTRAINT n]
+		// PRIMARY KEY | UNIQUE USING INDEX i). The server renames the index to the constraint's name, so the
+		// constraint is called n if a name is given and i otherwise: that is the name the reverse must drop.
+		// Edits: [pk|unique, constraint name, index name].
+		t := dfu.T(from, "t")
+		idx := schema.NewUniqueIndex(c.Edits[2]).AddColumns(dfu.C(t, "z0"))
+		idx.Table = t
+		var ch schema.Change = &postgres.AddPKConstraint{Name: c.Edits[1], Using: idx}
+		if c.Edits[0] == "unique" {
+			ch = &postgres.AddUniqueConstraint{Name: c.Edits[1], Using: idx}
+		}
+		changes, err = []schema.Change{&schema.ModifyTable{T: t, Changes: []schema.Change{ch}}}, nil
+	}
 	if err != nil || len(changes) == 0 {
 		return nil, 0
 	}
@@ -584,6 +598,29 @@ func evalPlanner(c PCase) (problems []string, n int) {
 			}
 		}
 	}
+	if c.Kind == "pg_constraint_using" {
+		for _, ch := range plan.Changes {
+			m := reUsingIndex.FindStringSubmatch(ch.Cmd)
+			if m == nil {
+				bad("no ADD ... USING INDEX clause in %q", ch.Cmd)
+				continue
+			}
+			name := m[2]
+			if name == "" {
+				name = m[4]
+			}
+			if name != c.Edits[1] && !(c.Edits[1] == "" && name == c.Edits[2]) {
+				bad("the constraint asked for is %q over index %q, the statement says %q", c.Edits[1], c.Edits[2], ch.Cmd)
+			}
+			rs, _ := ch.ReverseStmts()
+			if !plan.Reversible || len(rs) == 0 {
+				continue
+			}
+			if want := "DROP CONSTRAINT \"" + name + "\""; !strings.Contains(strings.Join(rs, ";"), want) {
+				bad("after %q the constraint is called %q (the server renames the index to the constraint's name), the reverse is %q", ch.Cmd, name, rs)
+			}
+		}
+	}
 	// a reverse statement names what it drops (a constraint the database named cannot be undone by text).
 	for _, ch := range plan.Changes {
 		rs, _ := ch.ReverseStmts()
@@ -623,6 +660,8 @@ func evalPlanner(c PCase) (problems []string, n int) {
 	}
 	return problems, len(plan.Changes)
 }
+
+var reUsingIndex = regexp.MustCompile(`ADD (CONSTRAINT "([^"]+)" )?(PRIMARY KEY|UNIQUE) USING INDEX "([^"]+)"`)
 
 var reDropNothing = regexp.MustCompile("(?i)\\bDROP\\s+(INDEX|KEY|FOREIGN\\s+KEY|CONSTRAINT|CHECK)\\s*(,|;|$|``|\"\")")
 
@@ -774,6 +813,13 @@ func plannerCases(tier string) []PCase {
 			for _, u := range [][]string{{"index"}, {"unique"}, {"fk"}, {"check"}, {"index", "fk"}, {"column", "index"}, {"fk", "column"}, {"column", "check", "unique"}} {
 				cs = append(cs, PCase{dn, "unnamed", u, ind})
 			}
+			if dn == "postgres" {
+				for _, k := range []string{"pk", "unique"} {
+					for _, nm := range []string{"", "t_z0_idx", "t_z0_con"} {
+						cs = append(cs, PCase{dn, "pg_constraint_using", []string{k, nm, "t_z0_idx"}, ind})
+					}
+				}
+			}
 			es := dfu.Edits(d)
 			for _, e := range es {
 				cs = append(cs, PCase{dn, "edits", []string{e.Name}, ind})
@@ -805,7 +851,7 @@ func Run(r *report.Run) {
 		}
 	}
 	r.Set("mysql_postgres_plans_checked_for_flag_and_down_files", pn)
-	r.Rule = "(planner level) MySQL, PostgreSQL and TiDB (MySQL driver on a mocked TiDB connection) plans of the differ universe (create-all, drop-all, every single edit, a fifth of the compatible pairs; thorough: all pairs) x 2 indents: parts (a) and (b) below, an ALTER TABLE of k clauses must be reversed by at least k clauses, and the reverse of a reversible plan must hold every (table, clause) unit the same planner writes, under the same options, for the inverse change; (engine level) pairs (A,B) of the SQLite universe as in C01 x indent {none, two spaces} x desired state {evaluated from HCL, inspected from a live database built with B's DDL}: plan from the real differ/planner; (a) Reversible <=> every change has a reverse statement, a plan that rebuilds a table is never reversible; (b) for the 5 third-party formatters the down part (our own extraction + the dialect scanner) equals the reverse statements in reverse change order; (c) for reversible plans: up then down on the real engine restores the catalogue read by our own pragma dump, and atlas reports no difference from the starting schema in both directions; non-trivial = pair with a non-empty plan; distinct = (A,B,indent,source)"
+	r.Rule = "(planner level; PostgreSQL also: a primary key / unique constraint made from an existing index, ADD [CONSTRAINT n] ... USING INDEX i, for n in {none, i, another name}: the reverse drops the constraint by the name it has after the server renamed the index) MySQL, PostgreSQL and TiDB (MySQL driver on a mocked TiDB connection) plans of the differ universe (create-all, drop-all, every single edit, a fifth of the compatible pairs; thorough: all pairs) x 2 indents: parts (a) and (b) below, an ALTER TABLE of k clauses must be reversed by at least k clauses, and the reverse of a reversible plan must hold every (table, clause) unit the same planner writes, under the same options, for the inverse change; (engine level) pairs (A,B) of the SQLite universe as in C01 x indent {none, two spaces} x desired state {evaluated from HCL, inspected from a live database built with B's DDL}: plan from the real differ/planner; (a) Reversible <=> every change has a reverse statement, a plan that rebuilds a table is never reversible; (b) for the 5 third-party formatters the down part (our own extraction + the dialect scanner) equals the reverse statements in reverse change order; (c) for reversible plans: up then down on the real engine restores the catalogue read by our own pragma dump, and atlas reports no difference from the starting schema in both directions; non-trivial = pair with a non-empty plan; distinct = (A,B,indent,source)"
 	r.Assumptions = []string{"MySQL/PostgreSQL plans are covered for (a) and (b) by the planner-level checks; (c) needs an engine and is SQLite only"}
 	cs := pairs(r.Tier)
 	var mu sync.Mutex
